@@ -116,8 +116,8 @@ def check(ctx: Ctx) -> str:
         ok = len(hs) == 1 and handler_types(hs[0]) == {"Exception"} and reraises(hs[0])
         ctx.check(ok, spec, spec, "exception routing", f"{spec} must have exactly one handler, `except Exception`, that re-raises through environment.handle_exception()", fi.loc())
     he = repo.func("environment:Environment.handle_exception")
-    rs = astq.raises(he.node)
-    ctx.check(len(rs) == 1 and ast.unparse(rs[0].exc) == "rewrite_traceback_stack(source=source)", "handle_exception", "environment:Environment.handle_exception", "raises the rewritten exception", "handle_exception must raise rewrite_traceback_stack(source=source)", he.loc())
+    rs = astq.raises(he.nnode)  # a local naming the rewritten exception is inlined
+    ctx.check(len(rs) == 1 and ast.unparse(rs[0].exc) =="rewrite_traceback_stack(source=source)", "handle_exception", "environment:Environment.handle_exception", "raises the rewritten exception", "handle_exception must raise rewrite_traceback_stack(source=source)", he.loc())
     rt = repo.func("debug:rewrite_traceback_stack")
     s = ast.unparse(rt.node)
     ret = astq.returns(rt.node)
